@@ -10,6 +10,39 @@ REL_TOL = 1e-9          # relative to `scale` (values) / `scale**2` (covariances
 NAMES = ["age", "b", "zip", "s0", "x1", "a", "income", "f", "c2", "g"]
 ALPHAS = ["1", "1", "1", "0", "1/4", "1/2", "3/4"]
 
+# sha256 of the definitions (comments and blank lines stripped) of lean/FairModel/Generated/CorrRemoverSrc.lean as lifted
+# from the pinned tree: while it matches, lifted-model-vs-oracle disagreements are bugs of this machinery (exit 2);
+# after a source edit that changed the lifted text they are a broken tie (exit 1).
+PINNED_SRC_SHA256 = "1870ff372778be5cada0e9ab5e15d16641bbc552caa5d4f2d642a663d1d16843"
+_SRC_STATE = {}
+
+
+def src_fingerprint():
+    import hashlib
+    import os
+    from .. import leanrun
+    path = os.path.join(leanrun.LEAN, "FairModel", "Generated", "CorrRemoverSrc.lean")
+    with open(path) as f:
+        txt = leanrun.strip_comments(f.read())
+    body = "\n".join(ln.rstrip() for ln in txt.splitlines() if ln.strip())
+    return hashlib.sha256(body.encode()).hexdigest()
+
+
+def src_changed():
+    if "v" not in _SRC_STATE:
+        try:
+            _SRC_STATE["v"] = src_fingerprint() != PINNED_SRC_SHA256
+        except OSError:
+            _SRC_STATE["v"] = False
+    return _SRC_STATE["v"]
+
+
+def model_problem(msg):
+    if src_changed():
+        return Problem("correspondence", "the model re-built from the LIFTED source departs from the property's oracle: " + msg,
+                       "C15.src_model_eq")
+    return Problem("harness", msg)
+
 
 # ------------------------------------------------------------------ exact linear algebra (oracle)
 def fdot(a, b):
@@ -41,8 +74,8 @@ def project(z, basis):
     return p
 
 
-def solve_normal(Sc_cols, Zcols):
-    """some exact solution of (ScᵀSc) β = Scᵀ Z (free variables 0); β as ms x mz list of rows"""
+def solve_normal(Sc_cols, Zcols, free=0):
+    """some exact solution of (ScᵀSc) β = Scᵀ Z (free variables set to `free`); β as ms x mz list of rows"""
     ms, mz = len(Sc_cols), len(Zcols)
     A = [[fdot(Sc_cols[a], Sc_cols[b]) for b in range(ms)] + [fdot(Sc_cols[a], z) for z in Zcols] for a in range(ms)]
     piv, r = [], 0
@@ -59,9 +92,10 @@ def solve_normal(Sc_cols, Zcols):
                 A[i] = [x - k * y for x, y in zip(A[i], A[r])]
         piv.append(c)
         r += 1
-    beta = [[F(0)] * mz for _ in range(ms)]
+    beta = [[F(free)] * mz for _ in range(ms)]
+    fr = [c for c in range(ms) if c not in piv]
     for i, c in enumerate(piv):
-        beta[c] = A[i][ms:]
+        beta[c] = [v - sum(A[i][f] * F(free) for f in fr) for v in A[i][ms:]]
     return beta, len(piv)
 
 
@@ -93,6 +127,7 @@ class Spec:
         self.R1 = [[a - b for a, b in zip(z, p)] for z, p in zip(self.Z, self.P)]      # alpha = 1 output columns
         self.out = [[a - self.alpha * b for a, b in zip(z, p)] for z, p in zip(self.Z, self.P)]
         self.beta, _ = solve_normal(self.Sc, self.Z)
+        self.beta_alt, _ = solve_normal(self.Sc, self.Z, free=1)     # a DIFFERENT solution when the block is rank deficient
         self.Sn = columns(Xn, ids) if Xn else [[] for _ in ids]
         self.Zn = columns(Xn, self.ns) if Xn else [[] for _ in self.ns]
         self.nn = len(Xn)
@@ -137,13 +172,22 @@ class CHECK(Check):
     pid = "C15"
     technique = ("Lean 4 theorems over the CorrRemover model (normal equations => zero covariance, least-squares "
                  "minimality, alpha blend, affine map, column order) + compiled-driver correspondence with "
-                 "CorrelationRemover.fit_transform/transform on exact dyadic matrices")
+                 "CorrelationRemover.fit_transform/transform on exact dyadic matrices; translator tie: fit / transform / _split_X / "
+                 "_create_lookup are inlined symbolically and LIFTED (harness/lifters/corr_remover.py -> Generated/CorrRemoverSrc.lean), "
+                 "the model is re-built from the lifted text (Model/CorrLifted.lean) and the theorems are re-proved for it")
     level_text = ("Theorems (all matrices, any number of rows/sensitive/kept columns, any beta solving the normal equations): "
                   "covariance numerator of every output column with every sensitive column = normal-equation residual = 0; "
                   "beta minimises the squared error; output = alpha*residual + (1-alpha)*original, covariance scales by (1-alpha); "
                   "transform is a row-wise affine map with the stored means/coefficients; kept columns = complement of the ids in "
                   "increasing order. Tie: fitted sensitive_mean_/beta_ and the outputs of fit_transform/transform (training and new "
-                  "data) vs the compiled Lean model; exact Fraction oracle (Gram-Schmidt projection, covariance) decides violations.")
+                  "data) vs the compiled Lean model; exact Fraction oracle (Gram-Schmidt projection, covariance) decides violations. "
+                  "LIFTED text (per-column mean, `S - mean` operand order, lstsq operands, transform re-using the STORED mean and "
+                  "beta_, entry-wise output alpha*(use - proj) + (1-alpha)*use, the two index comprehensions of _split_X, the by-name "
+                  "and by-position lookup tables): `src_model_eq` proves the re-built model equal to the hand-written one and "
+                  "`src_uncorrelated / src_alpha_blend / src_transform_new_data / src_drops_sensitive_keeps_order / "
+                  "src_ids_by_position_or_name` restate the clauses for it. Rank deficiency (F10): `residual_unique` and "
+                  "`output_independent_of_solution` (every solution of the normal equations gives the same output), "
+                  "`normal_equations_unique_iff` (beta_ unique <=> Gram matrix nonsingular <=> centred columns independent).")
     design_ref = "DESIGN.md section 4, C15"
     quick_cases = 3000
     thorough_cases = 30000
@@ -157,11 +201,17 @@ class CHECK(Check):
             "non-trivial = at least one non-constant sensitive column")
     explanation = ("theorems over the Lean model CorrRemover for all inputs; numpy.linalg.lstsq enters only through the normal "
                    "equations (checked on every case with the fitted beta_); correspondence: sensitive_mean_, fit_transform, "
-                   "transform(train), transform(new) vs compiled driver within 1e-9*scale; oracle: exact Gram-Schmidt residual and "
-                   "sample covariance in Fractions")
+                   "transform(train), transform(new) vs compiled driver within 1e-9*scale, both for the hand-written model (`corr.*`) "
+                   "and for the model re-built from the lifted source (`corrsrc.*`, incl. the lookup of ids by name / position); two "
+                   "different exact solutions of rank-deficient problems are pushed through the model (same output); oracle: exact "
+                   "Gram-Schmidt residual and sample covariance in Fractions. Lifted-model-vs-oracle disagreements are HARNESS-ERRORs "
+                   "only while Generated/CorrRemoverSrc.lean has the pinned content, else broken tie `C15.src_model_eq`.")
     trusted = ("numpy.linalg.lstsq is modelled by its defining property (normal equations Scᵀ(Z − Sc·beta) = 0), whose residual "
                "is evaluated exactly by the driver for every fitted beta_",
-               "sklearn validate_data / DataFrame -> ndarray conversion (checked only through the correspondence)")
+               "sklearn validate_data / DataFrame -> ndarray conversion (checked only through the correspondence)",
+               "harness/lifters/corr_remover.py: symbolic inlining of fit / transform, entry-wise reading of numpy broadcasting "
+               "(`S - mean` row-wise, `.dot(beta_)` as the row-by-matrix product, np.atleast_2d as identity on 2-d blocks), list / dict "
+               "comprehensions of _split_X / _create_lookup; every other shape is refused")
     assumptions = ("n >= 2 rows, at least one sensitive and one other column, all values finite",
                    "float rounding of lstsq on rank-deficient blocks stays below 1e-9*scale")
 
@@ -318,11 +368,25 @@ class CHECK(Check):
         eb, em = proto.mat(sp.beta), proto.lst(sp.smean)
         ls += [f"corr.normal {X} {ids} {em} {eb}", f"corr.cov {X} {ids} {em} {eb} 1",
                f"corr.transform {X} {ids} {em} {eb} {proto.rat(sp.alpha)}"]
+        # the model re-built from the lifted source text (Generated/CorrRemoverSrc.lean), exact least-squares beta
+        ls += [f"corrsrc.means {X} {ids}", f"corrsrc.split {sp.m} {ids}", f"corrsrc.normal {X} {ids} {eb}",
+               f"corrsrc.transform {X} {ids} {em} {eb} {proto.rat(sp.alpha)}"]
+        # `sensitive` of _split_X through the lifted _create_lookup table: by name (DataFrame) or by position (ndarray)
+        if case["container"] == "dataframe":
+            code = lambda nm: NAMES.index(nm) + 1 if nm in NAMES else 100 + sum(map(ord, nm))  # noqa: E731
+            ls.append(f"corrsrc.lookup df {proto.lst([code(c) for c in case['names']])} {proto.lst([code(case['names'][i]) for i in case['ids']])}")
+        else:
+            ls.append(f"corrsrc.lookup arr {sp.m} {ids}")
+        # theorem output_independent_of_solution on the driver: two exact solutions, same alpha = 1 output
+        ls += [f"corr.transform {X} {ids} {em} {eb} 1", f"corr.transform {X} {ids} {em} {proto.mat(sp.beta_alt)} 1"]
         if "exc" in o or "crash" in o or not self._usable(o, sp):
             return ls
         mean, beta, a = proto.lst(o["mean"]), proto.mat(o["beta"]), proto.rat(sp.alpha)
         ls += [f"corr.normal {X} {ids} {mean} {beta}", f"corr.transform {X} {ids} {mean} {beta} {a}",
                f"corr.cov {X} {ids} {mean} {beta} {a}", f"corr.transform {Xn} {ids} {mean} {beta} {a}"]
+        # lifted model with the fitted state
+        ls += [f"corrsrc.normal {X} {ids} {beta}", f"corrsrc.transform {X} {ids} {mean} {beta} {a}",
+               f"corrsrc.transform {Xn} {ids} {mean} {beta} {a}"]
         return ls
 
     @staticmethod
@@ -340,8 +404,11 @@ class CHECK(Check):
         tol2 = REL_TOL * sp.scale ** 2 * sp.n
         # ---- model vs oracle (exact) ------------------------------------------------
         if mo is not None:
-            if len(mo) < 5 or "bad-op" in mo[:5]:
-                return [Problem("harness", f"driver rejected a valid case: {mo[:5]}")]
+            if len(mo) < 12 or "bad-op" in mo[:5] or "bad-op" in mo[10:12]:
+                return [Problem("harness", f"driver rejected a valid case: {mo[:12]}")]
+            if mo[10] != mo[11] or proto.p_mat(mo[10]) != to_rows(sp.R1, sp.n):
+                probs.append(Problem("harness", "two exact least-squares solutions give different alpha=1 outputs in the model "
+                                     "(theorem `output_independent_of_solution`)"))
             if proto.p_list(mo[0]) != sp.smean:
                 probs.append(Problem("harness", f"model column means {mo[0]} vs oracle {sp.smean}"))
             if [int(t) for t in proto.p_list(mo[1])] != sp.ns:
@@ -352,6 +419,19 @@ class CHECK(Check):
                 probs.append(Problem("harness", f"model covariance for an exact least-squares beta is not 0: {mo[3]} (theorem `uncorrelated`)"))
             if proto.p_mat(mo[4]) != to_rows(sp.out, sp.n):
                 probs.append(Problem("harness", "model transform with exact beta differs from the exact projection residual"))
+            # the lifted model against the same oracle
+            if "bad-op" in mo[5:10]:
+                probs.append(model_problem(f"the model re-built from the lifted source rejects a valid case: {mo[5:10]}"))
+            elif proto.p_list(mo[5]) != sp.smean:
+                probs.append(model_problem(f"lifted fit stores mean {mo[5]}, per-column means are {[str(v) for v in sp.smean]}"))
+            elif [int(t) for t in proto.p_list(mo[6])] != sp.ns:
+                probs.append(model_problem(f"lifted _split_X keeps columns {mo[6]}, the non-sensitive positions in order are {sp.ns}"))
+            elif any(v != 0 for r in proto.p_mat(mo[7]) for v in r):
+                probs.append(model_problem(f"the exact least-squares beta does not solve the problem lstsq is called with in the source: {mo[7]}"))
+            elif proto.p_mat(mo[8]) != to_rows(sp.out, sp.n):
+                probs.append(model_problem("lifted transform with the exact beta differs from alpha*residual + (1-alpha)*original"))
+            if mo[9] == "bad-op" or [int(t) for t in proto.p_list(mo[9])] != list(case["ids"]):
+                probs.append(model_problem(f"the lifted _create_lookup / _split_X resolve the sensitive ids to {mo[9]}, their positions are {case['ids']}"))
         # ---- implementation vs property oracle ---------------------------------------
         if "crash" in o:
             return probs + [Problem("correspondence", f"adapter crashed: {o}", "impl-total")]
@@ -416,30 +496,45 @@ class CHECK(Check):
                 probs.append(Problem("correspondence", f"fitted state has unexpected shape: mean {o.get('mean_shape')}, beta {np.shape(o.get('beta'))}",
                                      "C15.fitted_state"))
                 return probs
-            if len(mo) != 9 or "bad-op" in mo:
-                return probs + [Problem("harness", f"driver rejected the fitted state: {mo[5:]}")]
+            if len(mo) != 19 or "bad-op" in mo[12:16]:
+                return probs + [Problem("harness", f"driver rejected the fitted state: {mo[12:]}")]
+            if "bad-op" in mo[16:19] or "bad-op" in mo[5:10]:
+                return probs + [model_problem(f"the model re-built from the lifted source rejects the fitted state: {mo[16:]}")]
             dm = max(abs(a - float(b)) for a, b in zip(o["mean"], sp.smean))
             mean_ok = dm <= tol
             if not mean_ok:
                 probs.append(Problem("correspondence", f"sensitive_mean_ {o['mean']} (shape {o['mean_shape']}) is not the vector of column means "
                                      f"{[float(v) for v in sp.smean]}", "C15.fitMean"))
             bscale = max(1.0, max(abs(v) for r in o["beta"] for v in r))
-            nres = max([abs(float(v)) for r in proto.p_mat(mo[5]) for v in r] + [0.0])
+            nres = max([abs(float(v)) for r in proto.p_mat(mo[12]) for v in r] + [0.0])
             lstsq_ok = nres <= tol2 * bscale
             if not lstsq_ok:
                 probs.append(Problem("correspondence", f"fitted beta_ violates the normal equations of (S - sensitive_mean_) by {nres:.3g} "
                                      "(hypothesis isLstsq of the theorems)", "C15.isLstsq"))
-            d = maxdiff(ft, proto.p_mat(mo[6]))
+            d = maxdiff(ft, proto.p_mat(mo[13]))
             if d is None or d > tol * bscale:
                 probs.append(Problem("correspondence", f"fit_transform differs from the model's transform(mean_, beta_, alpha) by {d}",
                                      "C15.transform_entry"))
-            d = maxdiff(o["new"], proto.p_mat(mo[8]))
+            d = maxdiff(o["new"], proto.p_mat(mo[15]))
             if d is None or d > tol * bscale:
                 probs.append(Problem("correspondence", f"transform(new) differs from the model's transform(mean_, beta_, alpha) by {d}",
                                      "C15.transform_new_data"))
+            # the lifted model with the fitted state: normal equations of the operands lstsq is called with, transform of the
+            # training batch and of new data
+            nres_s = max([abs(float(v)) for r in proto.p_mat(mo[16]) for v in r] + [0.0])
+            if nres_s > tol2 * bscale and lstsq_ok:
+                probs.append(Problem("correspondence", f"fitted beta_ violates the normal equations of the lstsq operands lifted from the source by {nres_s:.3g}",
+                                     "C15.src_uncorrelated"))
+            d = maxdiff(ft, proto.p_mat(mo[17]))
+            if d is None or d > tol * bscale:
+                probs.append(Problem("correspondence", f"fit_transform differs from the transform lifted from the source by {d}", "C15.src_alpha_blend"))
+            d = maxdiff(o["new"], proto.p_mat(mo[18]))
+            if d is None or d > tol * bscale:
+                probs.append(Problem("correspondence", f"transform(new) differs from the transform lifted from the source by {d}",
+                                     "C15.src_transform_new_data"))
             if mean_ok and lstsq_ok:
                 # theorem cov_alpha instance on the model: cov = (1 - alpha) * cov(Z, S) up to the lstsq residual
-                cm = proto.p_mat(mo[7])
+                cm = proto.p_mat(mo[14])
                 for j in range(sp.mz):
                     for k in range(sp.ms):
                         want = (1 - sp.alpha) * cov_num(sp.Z[j], sp.S[k]) / (sp.n - 1)
@@ -451,6 +546,12 @@ class CHECK(Check):
         """F10: exactly collinear sensitive columns whose centred float representation is collinear only up to
         rounding; numpy.linalg.lstsq(rcond=None) then keeps the noise singular value and returns |beta_| ~ 1e14.
         Matched by: the centred block is rank deficient in exact arithmetic AND the fitted beta_ is huge."""
+        # only the consequences of a wrong beta_ (theorems residual_unique / output_independent_of_solution: with ANY exact
+        # solution these relations hold, so their failure on such a case is the float artefact); a wrong shape, a wrong
+        # column order, transform(train) != fit_transform or a wrong mean on the same input are still reported
+        if problem.relation not in ("C15.uncorrelated", "C15.lstsq_minimises", "C15.alpha_blend", "C15.transform_affine",
+                                    "C15.isLstsq"):
+            return None
         for e in entries:
             if e.get("match") != "rank_deficient_and_beta_blowup":
                 continue
